@@ -44,6 +44,7 @@ class Contract:
     rewrites: List[str] = field(default_factory=list)   # opt-in rewrite rules for this fn
     attrs: List[str] = field(default_factory=list)      # verifier attributes, e.g. rlimit
     nloops: Optional[int] = None
+    common_inv: str = ''   # clauses added to every loop invariant of the fn
     src: str = ''       # vspec file
     line: int = 0
     opens: bool = False  # has any clause
@@ -115,6 +116,8 @@ def load_contracts(cdir=None) -> Dict[Tuple[str, str], Contract]:
                     cur.rewrites.extend(arg.split())
                 elif d == '@attr':
                     cur.attrs.append(arg)
+                elif d == '@common_invariant':
+                    cur.common_inv += '        ' + arg.rstrip(',') + ',\n'
                 elif d == '@nloops':
                     cur.nloops = int(arg)
                 else:
@@ -669,6 +672,9 @@ def splice_body(body, c: Contract, site):
         i = loops[n - 1]
         bo = loop_body_open(toks, i)
         s = '\n'
+        if c.common_inv:
+            spec = dict(spec)
+            spec['invariant'] = c.common_inv + spec.get('invariant', '')
         for kw in ('invariant_except_break', 'invariant', 'ensures', 'decreases'):
             if kw in spec and spec[kw].strip():
                 s += '            %s\n%s' % (kw, spec[kw] if spec[kw].endswith('\n') else spec[kw] + '\n')
